@@ -432,7 +432,11 @@ RefEG(sc, h, ev) ==
                  "EG_edge_not_causal", {e \in ev.edges : ~EGEdgeOk(sc, e)})]
 
 RefStep(sc, h, ev) ==
-  IF h.dead THEN [h |-> h, v |-> NoV]
+  IF h.dead THEN
+     \* the bookkeeping stopped after a step nobody demanded; how the run ENDS is still judged (C05 is about the outcome)
+     [h |-> h,
+      v |-> IF ev.k = "END" /\ ev.r # "ok" /\ h.fault = None /\ h.mal = None /\ ev.cat \notin {"loop_guard", "cycle", "too_slow"}
+            THEN Viol("C05_run_failed", <<ev.r, ev.cat>>) ELSE NoV]
   ELSE CASE ev.k = "SB"  -> RefSB(sc, h, ev)
          [] ev.k = "SE"  -> RefSE(sc, h, ev)
          [] ev.k = "DE"  -> RefDE(sc, h, ev)
